@@ -169,6 +169,10 @@ fn gen_line(rng: &mut Rng, heavy: bool) -> String {
                 b.push_str(e);
                 return b;
             }
+            if rng.chance(1, 4) {
+                // a clock-limited go with a tiny budget (virtual clock: 20 us per node)
+                return format!("go movetime {}\n", rng.pick(&[0u64, 1, 2, 5, 9, 10, 11, 20]));
+            }
             format!("go depth {}", rng.range(1, 2))
         }
     };
@@ -456,6 +460,8 @@ pub fn run_scenario(sc: &Scenario, keep_log: bool) -> RunResult {
     let mut st = SimState::new(sc.key_seed, sc.key_seed ^ 0x5555);
     st.keep_log = keep_log;
     st.max_nodes_per_search = 5_000_000;
+    // 20 us of virtual time per node: `go movetime 20` is worth a thousand nodes
+    st.clock.cost_node_ns = 20_000;
     let bytes = sc.delivered_bytes();
     // chunking
     if sc.chunking == 0 || sc.read_error_before_line.is_some() {
@@ -527,7 +533,12 @@ pub fn judge(sc: &Scenario, r: &RunResult) -> Option<(String, String)> {
             ))
         }
         // step cap under a depth-limited go: inconclusive (C16 sets no time bound), counted
-        Outcome::Aborted(Abort::NodeCap) => return None,
+        Outcome::Aborted(Abort::NodeCap) => {
+            if lines.iter().flatten().any(|l| first_token(l) == "go" && l.split_whitespace().any(|t| t == "movetime")) && !lines.iter().flatten().any(|l| first_token(l) == "go" && l.split_whitespace().any(|t| t == "infinite" || t == "64")) {
+                return Some(("no_answer_under_a_clock".into(), "a go movetime of at most 20 ms (a thousand nodes on this virtual clock) is still unanswered after five million nodes".into()));
+            }
+            return None;
+        }
         Outcome::Aborted(a) => return Some(("diverged".into(), format!("{:?}", a))),
         Outcome::Crash(m) => return Some(("crash".into(), m.clone())),
         Outcome::Exit(c) if *c != 0 => {
@@ -926,7 +937,8 @@ pub fn run(ctx: &Ctx) -> i32 {
                 }
             }
         }
-        let real_sample: Option<usize> = if real_bin.is_some() && i % 4 == 0 {
+        let has_clocked_go = base.lines.iter().any(|l| l.contains("movetime"));
+        let real_sample: Option<usize> = if real_bin.is_some() && i % 4 == 0 && !has_clocked_go {
             Some(rng.usize_below(runs.len()))
         } else {
             None
